@@ -11,6 +11,25 @@ EXTENDS ResolveDoc, Prec, TLC, Json, IOUtils
 Dumps == ndJsonDeserialize(IOEnv.DUMPS)
 VARIABLE i
 
+\* the meta-data the table generator resolved with against the meta-data that was WRITTEN
+\* (d.meta.pm: per alternative the rule-level and the alternative's own pieces): a production
+\* inherits each piece it does not give itself (Builder.Own)
+Own(pm, rm) ==
+  [prio  |-> IF pm.prio >= 0 THEN pm.prio ELSE IF rm.prio >= 0 THEN rm.prio ELSE 10,
+   assoc |-> IF pm.assoc # "" THEN pm.assoc ELSE IF rm.assoc # "" THEN rm.assoc ELSE "none",
+   nops  |-> pm.nops \/ rm.nops,
+   nopse |-> pm.nopse \/ rm.nopse]
+MetaDiff(T, pm) ==
+  {<<"meta_data_not_as_written", pm[k][1], pm[k][2]>> :
+     k \in {j \in 1 .. Len(pm) :
+              LET S == {n \in 1 .. Len(T.nonterms) : T.nonterms[n].name = pm[j][1]}
+              IN IF S = {} THEN TRUE
+                 ELSE LET nt == T.nonterms[CHOOSE n \in S : TRUE]
+                      IN IF Len(nt.prods) < pm[j][2] THEN TRUE
+                         ELSE LET p == T.prods[nt.prods[pm[j][2]] + 1]
+                                  w == Own(pm[j][4], pm[j][3])
+                              IN ~(p.prio = w.prio /\ p.assoc = w.assoc /\ p.nops = w.nops /\ p.nopse = w.nopse)}}
+
 Verdict(j) ==
   LET res == Dumps[j]
       raw == Dumps[j - 1]
@@ -20,6 +39,7 @@ Verdict(j) ==
                 /\ \A q \in TStates(res.t) : TCore(raw.t, q) = TCore(res.t, q)
       bad0 == IF paired THEN BadCells(raw.t, res.t, ctx0) ELSE {}
       bad == {<<b[1], b[2], b[3], b[4], res.t.terms[b[2] + 1].assoc>> : b \in bad0}
+             \cup (IF "pm" \in DOMAIN res.meta /\ ConsistentG(res.t) THEN MetaDiff(res.t, res.meta.pm) ELSE {})
   IN [id |-> res.id, cfg |-> res.cfg, paired |-> paired, bad |-> bad,
       exercised |-> IF paired THEN Exercised(raw.t, res.t) ELSE 0,
       nconf |-> res.t.nconflicts]
